@@ -27,7 +27,7 @@ def models(tier, seed):
 
 
 def required_tags(tier):
-    return ['states:1', 'states:2', 'inductors>=2', 'energy', 'scheme:other', 'listing_not_alphabetical', 'decade_units']
+    return ['states:1', 'states:2', 'inductors>=2', 'energy', 'scheme:other', 'listing_not_alphabetical', 'decade_units', 'reanalysed_with_other_values']
 
 
 def replay(case, ctx):
@@ -48,6 +48,9 @@ def replay(case, ctx):
     # (kOhm - nF - MHz, mOhm - F, ...), where the entries of A span ten and more decades
     UNITS = [(6, 0, 0), (-5, 0, 3), (3, 0, 6), (0, 0, -3), (3, 2, 9)]
     variants = case.get('schemes') or [(0,), ((h % (N_SCHEMES - 1)) + 1,), (((h >> 7) % N_SCHEMES), UNITS[(h >> 3) % len(UNITS)])]
+    if 'schemes' not in case and (ctx.get('tier') == 'thorough' or h % 2):
+        # the same circuit under the same names (scheme 0 was analysed first) with other capacitances / inductances only
+        variants.append((0, (0, 0, [1, -2, 4][(h >> 2) % 3])))
     for var in variants:
         scheme = var[0]
         units = tuple(var[1]) if len(var) > 1 else (0, 0, 0)
@@ -57,6 +60,8 @@ def replay(case, ctx):
             tg.add('scheme:other')
         if units != (0, 0, 0):
             tg.add('decade_units')
+        if scheme == 0 and units != (0, 0, 0):
+            tg.add('reanalysed_with_other_values')
         ctxs = f'scheme={scheme} units={units}'
         built, e = call(build_circuit, comps, naming, 0, units)
         if e is not None:
@@ -127,6 +132,9 @@ def replay(case, ctx):
         if ok:
             tg.add('energy')
             free = E[npulse + 1:]
+            if not np.all(np.isfinite(E)):
+                r.mismatches.append({'what': 'stored energy of the simulated free response', 'got': repr(E[:12]), 'want': 'finite and non-increasing', 'signature': 'energy:not_finite', 'detail': ctxs})
+                continue
             top = float(np.max(E)) or 1.0
             r.events.append({'case': h, 'scheme': scheme, 'e': [int(round(x / top * 1e9)) for x in free]})
     r.tags = sorted(tg)
